@@ -246,15 +246,28 @@ func (s *c18sys) quietMod1(i int) (quiet, maybe bool) {
 	return false, false
 }
 
-func (s *c18sys) settle() {
-	ok := waitUntil(s.pk, func() bool {
+// allQuiet: every module is blocked, judged on ONE consistent view of the system (a module's verdict
+// depends on other modules' states: if any state moved while the verdicts were formed, try again).
+func (s *c18sys) allQuiet() bool {
+	vec := func() string {
+		var sb strings.Builder
 		for _, i := range s.order {
-			if q, _ := s.quietMod(i); !q {
-				return false
-			}
+			sb.WriteString(c17StateCode(s.mods[i].wrap.State()))
+			sb.WriteString(c17StateCode(s.mods[i].inner.svc.State()))
 		}
-		return true
-	})
+		return sb.String()
+	}
+	v0 := vec()
+	for _, i := range s.order {
+		if q, _ := s.quietMod(i); !q {
+			return false
+		}
+	}
+	return vec() == v0
+}
+
+func (s *c18sys) settle() {
+	ok := waitUntil(s.pk, s.allQuiet)
 	if !ok {
 		s.to++
 		return
@@ -269,14 +282,7 @@ func (s *c18sys) settle() {
 			}
 		}
 	}
-	waitUntil(s.pk, func() bool {
-		for _, i := range s.order {
-			if q, _ := s.quietMod(i); !q {
-				return false
-			}
-		}
-		return true
-	})
+	waitUntil(s.pk, s.allQuiet)
 }
 
 func (s *c18sys) snapshot() string {
